@@ -140,10 +140,14 @@ macro_rules! acc_type {
                 match name {
                     "from_array" => return (V::from_array(an), model),
                     "from_slice" => {
-                        // a slice longer than N: only the first N elements count
-                        let mut buf = [S::fb(!a4[0].tb()); 8];
-                        buf[..N].copy_from_slice(&an);
-                        return (V::from_slice(&buf[..N + k.min(3)]), model);
+                        // a slice longer than N: only the first N elements count; the slice starts at any element offset of a
+                        // 16-byte aligned buffer (from_slice has no alignment precondition)
+                        #[repr(align(16))]
+                        struct Al([S; 12]);
+                        let mut buf = Al([S::fb(!a4[0].tb()); 12]);
+                        let off = k % 4;
+                        buf.0[off..off + N].copy_from_slice(&an);
+                        return (V::from_slice(&buf.0[off..off + N + (k / 4).min(3)]), model);
                     }
                     "free-fn" => return (glam::$free($(an[$i]),+), model),
                     "const" => {
@@ -597,6 +601,88 @@ family!(t_usizevec2, t_usizevec3, t_usizevec4, USizeVec2, USizeVec3, USizeVec4, 
 acc4!(t_quat, Quat, f32, quat, quat, float, Vec4);
 acc4!(t_dquat, DQuat, f64, dquat, quat, float, DVec4);
 
+/// `From<(vector, scalar ...)>` constructors: every lane of every part lands in its place bit for bit
+macro_rules! compound {
+    ($m:ident, $T2:ident, $T3:ident, $T4:ident, $S:ident, |$a:ident, $h:ident, $o:ident| $extra:block) => {
+        pub mod $m {
+            use super::*;
+            use glam::{$T2, $T3, $T4};
+            type S = $S;
+            pub const TY: &str = stringify!($T4);
+            /// words: a b c d, hidden-lane word
+            pub fn check(w: &[u64], t: &mut Tally) -> Result<(), Fail> {
+                let $a: [S; 4] = [<S as Lane>::fb(w[0]), <S as Lane>::fb(w[1]), <S as Lane>::fb(w[2]), <S as Lane>::fb(w[3])];
+                #[allow(unused_variables)]
+                let $h = w[4];
+                t.eval(1);
+                let distinct = { let mut b: Vec<u64> = $a.iter().map(|x| x.tb()).collect(); b.sort_unstable(); b.dedup(); b.len() == 4 };
+                t.class(if distinct { "lanes:pairwise-distinct" } else { "lanes:with-repeats" });
+                if distinct {
+                    t.nontrivial(mix(hash_str(TY), mix(hash_str(VARIANT), vcore::fnv(w))));
+                    if t.want_sample() {
+                        t.sample(json!({"family": TY, "variant": VARIANT, "lanes": format!("{:?}", $a), "lane_bits": $a.iter().map(|x| format!("{:#x}", x.tb())).collect::<Vec<_>>()}));
+                    }
+                }
+                let a = $a;
+                #[allow(unused_mut)]
+                let mut $o: Vec<(&'static str, Vec<S>, Vec<S>)> = vec![
+                    (concat!(stringify!($T4), "::from((", stringify!($T3), ", s))"), $T4::from(($T3::new(a[0], a[1], a[2]), a[3])).to_array().to_vec(), a.to_vec()),
+                    (concat!(stringify!($T4), "::from((s, ", stringify!($T3), "))"), $T4::from((a[0], $T3::new(a[1], a[2], a[3]))).to_array().to_vec(), a.to_vec()),
+                    (concat!(stringify!($T4), "::from((", stringify!($T2), ", s, s))"), $T4::from(($T2::new(a[0], a[1]), a[2], a[3])).to_array().to_vec(), a.to_vec()),
+                    (concat!(stringify!($T4), "::from((", stringify!($T2), ", ", stringify!($T2), "))"), $T4::from(($T2::new(a[0], a[1]), $T2::new(a[2], a[3]))).to_array().to_vec(), a.to_vec()),
+                    (concat!(stringify!($T3), "::from((", stringify!($T2), ", s))"), $T3::from(($T2::new(a[0], a[1]), a[2])).to_array().to_vec(), a[..3].to_vec()),
+                ];
+                $extra
+                for (form, got, exp) in $o {
+                    for i in 0..exp.len() {
+                        if got[i].tb() != exp[i].tb() {
+                            return Err(Fail::new(
+                                format!("C17/{}/{}/compound-tuples", VARIANT, TY),
+                                form,
+                                format!("{form}: lane {i} is {:?} (bits {:#x}) but the part put there is {:?} (bits {:#x}); parts {:?}", got[i], got[i].tb(), exp[i], exp[i].tb(), a),
+                            ));
+                        }
+                    }
+                }
+                Ok(())
+            }
+            pub fn subs<'a>(out: &mut Vec<SubCheck<'a>>) {
+                out.push(SubCheck::new(
+                    format!("compound-tuples/{}/{}", TY, VARIANT),
+                    1,
+                    |env: &mut Env| {
+                        env.tally.exhaustive = false;
+                        let n = env.cases(20_000, 30);
+                        let l = || lane_strat(<S as Lane>::BITS, <S as Lane>::FLOAT, <S as Lane>::SIGNED);
+                        let st = (proptest::collection::vec(l(), 4), lattice::lat(32)).prop_map(|(mut v, h)| { v.push(h); v }).boxed();
+                        env.prop("compound-tuples", n, st, &check);
+                    },
+                    check,
+                ));
+            }
+        }
+    };
+}
+compound!(c_vec, Vec2, Vec3, Vec4, f32, |a, h, o| {
+    use glam::Vec3A;
+    let hid = f32::from_bits(h as u32);
+    let j = |x: f32, y: f32, z: f32| Vec3A::from_vec4(Vec4::new(x, y, z, hid));
+    o.push(("Vec4::from((Vec3A, s))", Vec4::from((j(a[0], a[1], a[2]), a[3])).to_array().to_vec(), a.to_vec()));
+    o.push(("Vec4::from((s, Vec3A))", Vec4::from((a[0], j(a[1], a[2], a[3]))).to_array().to_vec(), a.to_vec()));
+    o.push(("Vec3A::from((Vec2, s))", Vec3A::from((Vec2::new(a[0], a[1]), a[2])).to_array().to_vec(), a[..3].to_vec()));
+    o.push(("Vec3A::extend", j(a[0], a[1], a[2]).extend(a[3]).to_array().to_vec(), a.to_vec()));
+});
+compound!(c_dvec, DVec2, DVec3, DVec4, f64, |a, h, o| {});
+compound!(c_i8vec, I8Vec2, I8Vec3, I8Vec4, i8, |a, h, o| {});
+compound!(c_u8vec, U8Vec2, U8Vec3, U8Vec4, u8, |a, h, o| {});
+compound!(c_i16vec, I16Vec2, I16Vec3, I16Vec4, i16, |a, h, o| {});
+compound!(c_u16vec, U16Vec2, U16Vec3, U16Vec4, u16, |a, h, o| {});
+compound!(c_ivec, IVec2, IVec3, IVec4, i32, |a, h, o| {});
+compound!(c_uvec, UVec2, UVec3, UVec4, u32, |a, h, o| {});
+compound!(c_i64vec, I64Vec2, I64Vec3, I64Vec4, i64, |a, h, o| {});
+compound!(c_u64vec, U64Vec2, U64Vec3, U64Vec4, u64, |a, h, o| {});
+compound!(c_usizevec, USizeVec2, USizeVec3, USizeVec4, usize, |a, h, o| {});
+
 /// (type name, history check) of every type: the entry points of the libFuzzer target engine/fuzz/fuzz_targets/c17_history.rs
 #[allow(dead_code)]
 pub fn history_checks() -> Vec<(&'static str, fn(&[u64], &mut Tally) -> Result<(), Fail>)> {
@@ -620,5 +706,6 @@ pub fn subs<'a>(_args: &Args) -> Vec<SubCheck<'a>> {
     reg!(t_i8vec2 t_i8vec3 t_i8vec4 t_u8vec2 t_u8vec3 t_u8vec4 t_i16vec2 t_i16vec3 t_i16vec4 t_u16vec2 t_u16vec3 t_u16vec4);
     reg!(t_ivec2 t_ivec3 t_ivec4 t_uvec2 t_uvec3 t_uvec4 t_i64vec2 t_i64vec3 t_i64vec4 t_u64vec2 t_u64vec3 t_u64vec4);
     reg!(t_usizevec2 t_usizevec3 t_usizevec4 t_quat t_dquat);
+    reg!(c_vec c_dvec c_i8vec c_u8vec c_i16vec c_u16vec c_ivec c_uvec c_i64vec c_u64vec c_usizevec);
     out
 }
